@@ -412,6 +412,31 @@ def latin1_char(o):
     return chr(o)
 
 
+ATTR_POINTS = [0x21, 0x41, 0x7e, 0x7f, 0x80, 0xa0, 0xe9, 0xff, 0x100, 0x17f, 0x7ff, 0x800, 0x20ac, 0x65e5, 0xd7ff, 0xe000, 0xefff,
+               0xfffd, 0xffff, 0x10000, 0x1f600, 0x10ffff]
+
+
+def make_plain_attr():
+    """the recoding accessors of the request's cookie container (attribute access, getunicode): documented to return the
+    text in the input encoding, i.e. what set_cookie was given also above U+00FF"""
+    def q(i: int, via_getunicode: bool):
+        # class representatives picked by a solver index (the engine's model of decoding utf-8 out of latin-1 text differs
+        # from CPython for symbolic code points in some ranges: counterexamples there do not reproduce)
+        assume(0 <= i < len(ATTR_POINTS))
+        o = ATTR_POINTS[i]
+        value = "v" + chr(o)
+        S.uninstall()
+        rs = Response()
+        rs.set_cookie("c", value)
+        rq = Request({"HTTP_COOKIE": browser(rs.headerlist)})
+        got = rq.cookies.getunicode("c") if via_getunicode else rq.cookies.c      # (the builtin getattr is patched by the engine)
+        if got != value:
+            return "set c=%r, request.cookies.%s gives %r" % (value, "getunicode('c')" if via_getunicode else "c", got)
+        cover("read-back-wide" if o > 255 else "read-back")
+        return None
+    return q
+
+
 def make_plain_any():
     def q(o: int):
         assume(0 <= o <= 0x10FFFF and not 0xD800 <= o <= 0xDFFF)
@@ -707,6 +732,8 @@ def queries(tier):
     # ---- plain round trip
     add("plain/char/any", make_plain_any(), "plain cookie c=chr(o), o any code point except surrogates (symbolic)",
         100, ["read-back"])
+    add("plain/attr/any", make_plain_attr(), "plain cookie c='v'+chr(o), o one of %d class representatives from U+0021 to U+10FFFF (solver "
+        "index), read through the recoding accessors request.cookies.c / request.cookies.getunicode('c')" % len(ATTR_POINTS), 150, ["read-back", "read-back-wide"])
     for ctx in (["escape", "separators", "quotes"] if not T else sorted(CONTEXTS)):
         pre, post = CONTEXTS[ctx]
         opts = OPTIONS if ctx in ("separators", "mid") else None
